@@ -87,6 +87,18 @@ def run(rep, tier):
             qs.append(l2.Query("nodes.%s.nx%d" % (nm, nx), ct3, ["NX=%d" % nx, "SCALE=1", "TOK_LOGNAME=TOK_" + nm], timeout=120, unwind=nx + 2,
                                function="SQuIDS::Set_xrange(double,double,string) [node values]", where="src/SQuIDS.cpp"))
     rep.assume("node values: machine arithmetic treated as mathematical; exp/log known only as mutually inverse strictly increasing functions")
+    # linear scale, EVERY grid length: loop contract on the extracted loop, real arithmetic (not a bounded stand-in)
+    ct4 = extract.instantiate(open(os.path.join(core.VERIF, "contracts", "C17_l2u.c")).read(), rep)
+    rep.assume("unbounded node-value VCs: unsigned->double conversion of the loop counter is value preserving (uninterpreted sq_u2r with ground instances of "
+               "non-negativity, zero, monotonicity, successor); goto-instrument --apply-loop-contracts (non-DFCC) is trusted to generate base and step")
+    uq = [l2.Query("nodes_unbounded.%s" % nm, ct4, ["TOK_LINNAME=TOK_" + nm], timeout=120, loop_contracts=2, u2r=True,
+                   function="SQuIDS::Set_xrange(double,double,string) [node values, every nx]", where="src/SQuIDS.cpp") for nm in ("linear", "Linear", "lin", "Lin")]
+    for q, r in zip(uq, core.pmap(lambda q: l2.run_query(q, bdir, [bdir, os.path.join(core.VERIF, "spec")]), uq)):
+        oid = "C17.L2." + q.name
+        rep.add(oid, q.function, "L2", (r.backend or "smt") + "+loop-contract", r.status, r.seconds, q.where,
+                (r.detail or "") + " [%d loop-invariant step obligations in the VC]" % getattr(r, "n_loop_obligations", 0))
+        if r.status == "failed":
+            rep.violation(oid, core.write_replay("C17", oid, dict(obligation=oid, verifier_output=r.detail[:3000], reproduced=None)), nofail=True)
     for q, r in zip(qs, core.pmap(lambda q: l2.run_query(q, bdir, [bdir, os.path.join(core.VERIF, "spec")]), qs)):
         oid = "C17.L2." + q.name
         rep.add(oid, q.function, "L2", r.backend or "smt", r.status, r.seconds, q.where, r.detail, bounded="grid length nx = %s" % q.name.split("nx")[-1])
